@@ -50,11 +50,13 @@ func MultiScalarMulLowLevel[PP GroupElementPtrLowLevel[PP, P], P any](
 	scalars [][]byte,
 ) {
 	n := len(points)
-	if n == 0 {
-		panic("MultiScalarMul: no points")
-	}
 	if n != len(scalars) {
 		panic("MultiScalarMul: number of points and scalars must be equal")
+	}
+	if n == 0 {
+		// The empty sum is the identity.
+		PP(out).SetZero()
+		return
 	}
 
 	// Use naive method for small n.
